@@ -93,6 +93,8 @@ def oracle(prog, obs, impl):
     subs = prog['subs']
     byid = {s['id']: s for s in subs}
     for i, op, o, dumps in oracles.walk(prog, obs):
+        if op['op'] in ('solution', 'solutionc') and not o['ok'] and o['exc'] == 'AssertionError':
+            fails.append((i, o.get('msg', 'the list of solutes was changed by an earlier call')))       # raised by the harness (dsl.exec_op)
         if op['op'] not in ('solution', 'solutionc') or not o['ok']:
             continue
         res = dict(o['out'])[op['out']]
